@@ -365,6 +365,8 @@ def _export_jobs(jobs, path, copytree):
 
     # Determine export path for each job.
     paths = {job.path: path_function(job) for job in jobs}
+    # Copy to the same normalized locations that the checks below compare.
+    paths = {src: os.path.normpath(dst) if dst else dst for src, dst in paths.items()}
 
     # Check leaf/node consistency
     _check_directory_structure_validity(paths.values())
